@@ -121,41 +121,87 @@ def disk_other(X, spec):
 
 
 def collections(tier):
-    """write_hif_collection / read_hif_collection and write_json collections (list and dict)."""
+    """write_hif_collection / read_hif_collection and write_json collections (list and dict), read without casts and with
+    every documented cast; each member must equal the member read alone from its own file with the same casts."""
     import xgi
 
     out = []
+    n = 0
+
+    def guarded(label, f):
+        nonlocal n
+        n += 1
+        try:
+            f()
+        except Exception as e:  # noqa: BLE001
+            import traceback
+
+            out.append((label + "-raises", f"{label}: {type(e).__name__}: {e} at {traceback.format_exc().splitlines()[-3].strip()}"))
+
     nets = [F.build(decorate(F.H([[1, 2], [2, 3]], nodes=[1, 2, 3, 4]), 2)), F.build(F.S([[1, 2, 3]])),
             F.build(F.D([([1], [2, 3])], nodes=[1, 2, 3, 9]))]
-    n = 0
+    # digit-string labels and IDs: casts change them (int, float), so a cast that is not applied shows
+    digit = [F.build(F.H([["1", "2"], ["2", "3"], []], nodes=["1", "2", "3", "7"], ids=["10", "11", "12"],
+                         eattr={0: {"w": 1}}, nattr={"7": {"node": "iso"}})),
+             F.build(F.D([(["1"], ["2", "3"])], nodes=["1", "2", "3", "9"], ids=["10"])),
+             F.build(F.S([["1", "2", "3"]], ids=["10"]))]
     for form in ("list", "dict"):
-        d = os.path.join(_DIR, f"coll-{os.getpid()}-{form}")
-        os.makedirs(d, exist_ok=True)
-        coll = nets if form == "list" else {"a": nets[0], "b": nets[1], "c": nets[2]}
-        xgi.write_hif_collection(coll, d, collection_name="c")
-        back = xgi.read_hif_collection(os.path.join(d, "c_collection_information.json"))
-        keys = [str(i) for i in range(3)] if form == "list" else ["a", "b", "c"]
-        n += 1
-        if sorted(map(str, back)) != sorted(keys):
-            out.append(("hif-collection", f"collection ({form}) keys {list(back)} != {keys}"))
-        else:
+        def hif(form=form):
+            d = os.path.join(_DIR, f"coll-{os.getpid()}-{form}")
+            os.makedirs(d, exist_ok=True)
+            coll = nets if form == "list" else {"a": nets[0], "b": nets[1], "c": nets[2]}
+            xgi.write_hif_collection(coll, d, collection_name="c")
+            back = xgi.read_hif_collection(os.path.join(d, "c_collection_information.json"))
+            keys = [str(i) for i in range(3)] if form == "list" else ["a", "b", "c"]
+            if sorted(map(str, back)) != sorted(keys):
+                out.append(("hif-collection", f"collection ({form}) keys {list(back)} != {keys}"))
+                return
             for k, X in zip(keys, nets):
                 X2 = back.get(k, back.get(int(k)) if k.isdigit() else None)
                 if X2 is None or full(X) != full(X2):
                     out.append(("hif-collection", f"collection ({form}) member {k}: {_fd(full(X), full(X2)) if X2 is not None else 'missing'}"))
-        # json collections: undirected hypergraphs only
-        dj = os.path.join(_DIR, f"jcoll-{os.getpid()}-{form}")
-        os.makedirs(dj, exist_ok=True)
-        hs = [F.build(decorate(F.H([[1, 2], [2, 3]], nodes=[1, 2, 3, 4]), 2)), F.build(F.H([[1], [1, 2, 3]]))]
-        coll = hs if form == "list" else {"a": hs[0], "b": hs[1]}
-        xgi.write_json(coll, dj, collection_name="c")
-        back = xgi.read_json(os.path.join(dj, "c_collection_information.json"), nodetype=int, edgetype=int)
-        n += 1
-        keys = ["0", "1"] if form == "list" else ["a", "b"]
-        for k, X in zip(keys, hs):
-            X2 = back.get(k)
-            if X2 is None or full(X) != full(X2):
-                out.append(("json-collection", f"json collection ({form}) member {k} differs"))
+
+        guarded(f"hif-collection({form})", hif)
+
+        def hif_casts(form=form):
+            d = os.path.join(_DIR, f"collc-{os.getpid()}-{form}")
+            os.makedirs(d, exist_ok=True)
+            coll = digit if form == "list" else {"a": digit[0], "b": digit[1], "c": digit[2]}
+            xgi.write_hif_collection(coll, d, collection_name="c")
+            info = os.path.join(d, "c_collection_information.json")
+            keys = [str(i) for i in range(3)] if form == "list" else ["a", "b", "c"]
+            for nt, et in ((None, None), (int, None), (None, int), (int, int), (float, str), (str, float)):
+                back = xgi.read_hif_collection(info, nodetype=nt, edgetype=et)
+                for k, X in zip(keys, digit):
+                    X2 = back.get(k, back.get(int(k)) if k.isdigit() else None)
+                    # the same network cast in memory: the reference for what the casts mean
+                    want = full(xgi.from_hif_dict(xgi.to_hif_dict(X), nodetype=nt, edgetype=et))
+                    if X2 is None or full(X2) != want:
+                        out.append(("hif-collection", f"collection ({form}) member {k} read with nodetype="
+                                    f"{getattr(nt, '__name__', None)}, edgetype={getattr(et, '__name__', None)}: "
+                                    f"{_fd(want, full(X2)) if X2 is not None else 'missing'}"))
+                    if nt is int and any(not isinstance(x, int) for x in (X2.nodes if X2 is not None else [])):
+                        out.append(("hif-collection", f"collection ({form}) member {k}: nodetype=int left nodes {list(X2.nodes)}"))
+                    if et is int and any(not isinstance(x, int) for x in (X2.edges if X2 is not None else [])):
+                        out.append(("hif-collection", f"collection ({form}) member {k}: edgetype=int left edge IDs {list(X2.edges)}"))
+
+        guarded(f"hif-collection-casts({form})", hif_casts)
+
+        def js(form=form):
+            # json collections: undirected hypergraphs only
+            dj = os.path.join(_DIR, f"jcoll-{os.getpid()}-{form}")
+            os.makedirs(dj, exist_ok=True)
+            hs = [F.build(decorate(F.H([[1, 2], [2, 3]], nodes=[1, 2, 3, 4]), 2)), F.build(F.H([[1], [1, 2, 3]]))]
+            coll = hs if form == "list" else {"a": hs[0], "b": hs[1]}
+            xgi.write_json(coll, dj, collection_name="c")
+            back = xgi.read_json(os.path.join(dj, "c_collection_information.json"), nodetype=int, edgetype=int)
+            keys = ["0", "1"] if form == "list" else ["a", "b"]
+            for k, X in zip(keys, hs):
+                X2 = back.get(k)
+                if X2 is None or full(X) != full(X2):
+                    out.append(("json-collection", f"json collection ({form}) member {k} differs"))
+
+        guarded(f"json-collection({form})", js)
     return n, out
 
 
